@@ -2,6 +2,7 @@ package dkgsim
 
 import (
 	"bytes"
+	"crypto/sha256"
 	"fmt"
 	"math/big"
 	"os"
@@ -504,6 +505,15 @@ func runRabin(t *core.Tape, tier string, info *core.RunInfo) *core.Violation {
 			continue
 		}
 		p.key, p.finished = k, true
+		{
+			h := sha256.New()
+			for _, c := range k.Commits {
+				b, _ := c.MarshalBinary()
+				h.Write(b)
+			}
+			sb, _ := k.Share.V.MarshalBinary()
+			info.Logf("party %d output: commits#%x share#%x qual=%v", p.id, h.Sum(nil)[:8], sha256.Sum256(sb), sortedQual(p.gen))
+		}
 		done = append(done, p)
 		info.Probe("honest-completed")
 	}
